@@ -24,10 +24,11 @@ def gen_plan(verif_seed, run, vle_full_every=10):
     # measurement pool: 3..6 shared objects (3..40 points, 1..4 temperatures)
     meas = []
     for ci in range(len(spec["curve_sets"])):
-        if len(meas) < 3 and w.random() < 0.8:
+        if len(meas) < 2 and w.random() < 0.6:
             meas.append({"from_set": ci, "component": w.choice([0, 1])})
     while len(meas) < 3 or (len(meas) < 6 and w.random() < 0.5):
-        meas.append({"points": hist.synth_points(w)})
+        meas.append({"points": hist.synth_points(w, endpoints=0.5)})
+    w.shuffle(meas)
     spec["measurements"] = meas
     full_vle = (run % vle_full_every) == 0
     if full_vle:
@@ -80,7 +81,8 @@ def gen_plan(verif_seed, run, vle_full_every=10):
         ops.insert(o.randint(0, len(ops)), op)
         for i, p in enumerate(ops):
             p["id"] = i
-    return {"prop": PROP, "verif_seed": verif_seed, "run": run, "run_seed": rs, "budget": 5000, "world": spec, "ops": ops}
+    return {"prop": PROP, "verif_seed": verif_seed, "run": run, "run_seed": rs, "budget": 5000, "world": spec, "ops": ops,
+            "new_interpreter_ref": run % 20 == 7}
 
 
 def _tol(mag):
